@@ -20,7 +20,8 @@ RULE = ("seeded generator. TCP: ~30 byte streams (HTTP requests with/without Hos
         "deadline/EOF/reset error at every position of the first 48 (thorough: 64) bytes with and without accompanying data, zero-length reads, 150 consecutive empty reads, random chunkings) "
         "x request addresses (v4, [v6], domain, without port) and a failing SetReadDeadline. UDP: QUIC v1/v2 Initials sealed by the harness's "
         "own RFC 9001 implementation (1-4 byte packet numbers, tokens, 0..20-byte connection IDs, CRYPTO frames in order/reversed/overlapping/"
-        "gapped/duplicated/>12 frames, PING/PADDING, lying frame lengths, wrong keys, Length field too short/long, coalesced trailing bytes, "
+        "gapped/duplicated/>12 frames, a ClientHello cut into 2..7 frames with a hole of 1..40 bytes in the client random / session id / "
+        "server name / padding / extension headers behind the lowest-offset frame or a later one, missing head, missing tail, PING/PADDING, lying frame lengths, wrong keys, Length field too short/long, coalesced trailing bytes, "
         "odd first bytes, unsupported versions), every truncation of a valid packet, bit flips, the suite's capture, garbage, empty. Check: "
         "address shapes (v4, [v6], zone, domain, '@', no port, signed/oversized/non-numeric ports, bracket errors) x RewriteDomain x port "
         "filters x tcp/udp. Non-trivial = the sniffer got past the 3-byte probe or the script has >1 entry (TCP), a CRYPTO payload was "
@@ -277,6 +278,23 @@ def ch_frames(rng, hs, mode):
     raise ValueError(mode)
 
 
+def hole_frames(rng, hs, hpos, hsize, before, after, order):
+    n = len(hs)
+    hpos = max(1, min(hpos, n - 2))
+    hsize = max(1, min(hsize, n - hpos - 1))
+    lo = sorted(rng.sample(range(1, hpos), min(before, hpos - 1))) if hpos > 1 else []
+    hi = sorted(rng.sample(range(hpos + hsize + 1, n), min(after, max(0, n - hpos - hsize - 1)))) if n - hpos - hsize - 1 > 0 else []
+    cuts = [0] + lo + [hpos]
+    parts = [(cuts[i], hs[cuts[i]:cuts[i + 1]]) for i in range(len(cuts) - 1)]
+    cuts2 = [hpos + hsize] + hi + [n]
+    parts += [(cuts2[i], hs[cuts2[i]:cuts2[i + 1]]) for i in range(len(cuts2) - 1)]
+    if order == "rev":
+        parts.reverse()
+    elif order == "shuf":
+        rng.shuffle(parts)
+    return [["c", o, d.hex()] for o, d in parts] + [["p", 12]]
+
+
 MODES = ["one", "split", "reversed", "shuffled", "gap", "overlap", "offset1", "many", "empties", "empties_rev", "empty_tail",
          "badtype", "lying", "toolarge", "faroffset", "hugeoffset", "hugeoffset2", "nocrypto", "tiny", "notch"]
 
@@ -300,8 +318,16 @@ def gen_udp(rng, tier):
     def build(ver=V1, sni="quic.example", mode="one", pnlen=2, pn=1, dl=8, sl=0, tok=0, **kw):
         hs = client_hello(rng, sni, alpn=True)
         b = {"ver": ver, "dcid": rid(rng, dl), "scid": rid(rng, sl), "token": rid(rng, tok), "pnlen": pnlen, "pn": pn,
-             "frames": ch_frames(rng, hs, mode)}
+             "frames": ch_frames(rng, hs, mode), "sni": sni}
         b.update(kw)
+        return b
+
+    def build_holes(ver, sni, hpos, hsize, before, after, order, pad=24):
+        """a ClientHello spread over several CRYPTO frames of which this datagram misses the bytes [hpos, hpos+hsize):
+        `before` cuts below the hole (0: the hole is right behind the lowest-offset frame), `after` cuts above it."""
+        hs = client_hello(rng, sni, pad=pad, alpn=True)
+        b = {"ver": ver, "dcid": rid(rng, 8), "scid": "", "token": "", "pnlen": rng.randint(1, 4), "pn": rng.choice([0, 1, 2]),
+             "frames": hole_frames(rng, hs, hpos, hsize, before, after, order), "sni": sni}
         return b
 
     for ver in (V1, V2):
@@ -328,6 +354,30 @@ def gen_udp(rng, tier):
         for first in (0x40, 0x80, 0x00, 0xd0 if ver == V1 else 0xc0, 0xe0, 0xf0, 0x50, 0x60):
             cases.append(mk(build(ver, first=first)))
             cases.append(mk(build(ver, first=first, notok=True)))
+    # holes: the datagram carries only part of the ClientHello (the rest travels in the next Initial). A hole of 1..40 bytes
+    # at every kind of place that leaves the zero-filled remainder parseable (client random, session id, inside the server
+    # name, inside the padding extension) or not (extension headers), behind the lowest-offset frame or behind later ones,
+    # frames in order / reversed / shuffled, 2..7 frames; plus a missing head and a missing tail
+    name = "holes-%d.example" % rng.randrange(1000)
+    nlen = len(name)
+    places = [8, 30, 45, 70, 90 + 1, 90 + nlen // 2, 90 + nlen - 1, 90 + nlen + 2, 90 + nlen + 20, 90 + nlen + 40, 90 + nlen + 50]
+    hole_cases = []
+    for ver in (V1, V2):
+        for hpos in places:
+            for before in (0, 1, 2, 4):
+                hole_cases.append(mk(build_holes(ver, name, hpos, rng.choice([1, 1, 2, 3, 8, 40]), before, rng.choice([0, 0, 1, 2]),
+                                                 rng.choice(["fwd", "rev", "shuf"])), addr=rng.choice(["9.9.9.9:443", "[2001:db8::9]:8443"])))
+    if not thorough:
+        keep = [c for i, c in enumerate(hole_cases) if c["build"]["frames"][0][1] == 0 and len(c["build"]["frames"]) == 3]
+        rng.shuffle(hole_cases)
+        hole_cases = keep[:8] + hole_cases[:56]
+    cases += hole_cases
+    for ver in (V1, V2):
+        hs0 = client_hello(rng, name, pad=24, alpn=True)
+        for frames in ([["c", 7, hs0[7:60].hex()], ["c", 60, hs0[60:].hex()], ["p", 9]],          # head missing
+                       [["c", 0, hs0[:60].hex()], ["c", 60, hs0[60:len(hs0) - 9].hex()], ["p", 9]],  # tail missing
+                       [["c", 0, hs0[:60].hex()], ["c", 61, hs0[61:].hex()], ["c", 0, hs0[:60].hex()], ["p", 9]]):  # duplicate + hole
+            cases.append(mk({"ver": ver, "dcid": rid(rng, 8), "scid": "", "token": "", "pnlen": 2, "pn": 1, "frames": frames, "sni": name}))
     for ver in (0, 0xff00001d, 2, 0x6b3343ce):
         cases.append(mk(build(ver)))
     # every truncation of a valid packet, bit flips
